@@ -120,7 +120,11 @@ theorem inv_work_upfilter (c : Cfg) (ar aq : Nat) (s : S) (h : Inv c ar aq s) (h
       | (s, none) => { s with up := (if s.up.isNone then some none else s.up), phase := s.phase.next }) := by
   have hcl := inv_not_cleaned h hrun
   have hupp : upPhase s.phase = true := by simp [hp, upPhase]
-  obtain ⟨hlc, hresp, hur, htm, hrst, _, _⟩ := h.k15 hcl hupp
+  obtain ⟨hlc, hresp, hur0, htm, hrst, _, _⟩ := h.k15 hcl hupp
+  have hur : s.upReset = false := by
+    cases hu : s.upReset with
+    | false => rfl
+    | true => rcases hur0 hu with hh | hh <;> (rw [hp] at hh; cases hh)
   have hsr := (h.k7 hcl).1
   have hdir : s.direct = false := not_direct_of_phase h.k7 hcl (by rw [hp]; decide)
   have hpd : s.procDone = false := by
@@ -132,7 +136,7 @@ theorem inv_work_upfilter (c : Cfg) (ar aq : Nat) (s : S) (h : Inv c ar aq s) (h
   unfold peTail
   by_cases hd : s.downReset = true
   · rw [if_pos hd]
-    exact tail_down c ar aq s h.base hcl hd (fun _ => hlc)
+    exact tail_down c ar aq s h.base hcl hd (fun hf => no_up_dead c ar aq s h.base hf hpd)
   · rw [if_neg hd, if_neg (by simp [hdir]), if_neg (by simp [hsr])]
     rw [show (false || s.procDone) = false from by simp [hpd]]
     simp only [Bool.false_eq_true, if_false]
@@ -151,7 +155,7 @@ theorem inv_work_upfilter (c : Cfg) (ar aq : Nat) (s : S) (h : Inv c ar aq s) (h
         | none => simp [hu] at hk
         | some o => simpa [hu] using hk
     · intro _ _
-      refine ⟨hlc, hresp, hur, htm, ?_, ?_, ?_⟩
+      refine ⟨hlc, hresp, fun hh => by simp [hur] at hh, htm, ?_, ?_, ?_⟩
       · have hr0 : s.respStarted = false := by rw [hrst, hp]; decide
         show s.respStarted = (s.phase.next == Phase.UpRecvData || s.phase.next == Phase.UpRecvTrailer)
         rw [hr0, hp]; decide
